@@ -188,6 +188,21 @@ CONFIG['C20'] = {'assumptions': ['requests are built in-process with an arbitrar
                   "the API router behind the UI middleware is an opaque terminal handler (C01's subject); 'reachable' means the request arrives "
                   'there unmodified']}
 
+CONFIG["C10"] = {
+    "quick_n": 30000, "thorough_n": 300000, "thorough_seeds": 4, "search_s": 60,
+    "model_fn": "urlPath / substSeq / finalQuery / pickScheme",
+    "go_entry": "client.Runtime.CreateHttpRequest (request.buildHTTP, Runtime.pickScheme)",
+    "rule": "streams P (patterns built from tokens: static segments, {name} segments, prefix{name}suffix, trailing slash, 1 in 25 odd patterns with nested/unbalanced braces; base paths with/without slashes and query; values incl. placeholder look-alikes, / ? # % .. space braces non-ASCII NUL; some parameters missing or extra; each case rebuilt 4x to shake Go's map order), Q (static query of base path and pattern vs caller's parameters, 0-2 keys each, repeated values), S (scheme lists), E (net/url escape tables: all 256 bytes x both modes, every run). Non-trivial: P with a well-formed pattern, every Q/S/E; distinct = distinct input lines.",
+    "trusted_base": COMMON_TB + [
+        "url.Parse of base path and pattern, path.Join, url.Values.Encode and http.NewRequest's re-parse are stdlib: the harness passes the parsed .Path/.Query() and the joined path as model inputs and reconstructs the string handed to NewRequest from RawPath/EscapedPath",
+        "net/url shouldEscape/escape/unescape are hand-copied (RtVerif/Base/GoURL.lean) and validated over all 256 bytes x both modes on every run (stream E)",
+    ],
+    "assumptions": ["parameter names are brace-free and distinct (they are Go map keys); patterns are byte strings",
+                    "Go's map iteration order is not observable: each P case is rebuilt 4 times and must give one answer"],
+    "partial": ["T4 (query precedence caller > pattern > base path) is decided by the Spec on every Q case but has no Lean theorem yet",
+                "the model's urlPath is the string handed to http.NewRequest; what net/url makes of it afterwards is stdlib (see known finding F10a)"],
+}
+
 # properties not claimed (with the reason) and hook commits in /repo (none so far: no hooks needed)
 NOT_APPLICABLE = {}
 HOOK_COMMITS = []
